@@ -17,3 +17,4 @@ Proof. exact finished_refuses_cancel. Qed.
 
 Print Assumptions c02_done_is_absorbing.
 Print Assumptions c02_cancel_true_means_cancelled.
+Print Assumptions c02_cancel_false_on_finished.
